@@ -3,7 +3,9 @@
 Counted injection points are only
   (a) entry of a Python function defined under numqi/ (`call` event), and
   (b) loop back-edges inside such a function: a `line` event whose line is the target of a JUMP_BACKWARD*
-      instruction of that code object and does not exceed the previous line of that frame.
+      instruction of that code object and does not exceed the previous line of that frame, and
+  (c) the normal return of such a function (`return` event with a value): the eval breaker is checked in the caller right
+      after the CALL instruction, i.e. after every side effect of the callee and before its result is stored.
 These are a subset of the positions where CPython 3.12 services pending signals, so an exception injected there is
 one a real Ctrl-C / MemoryError could produce. `with`-block exits are *not* injection points (see DESIGN §2.3).
 """
@@ -65,8 +67,6 @@ class Injector:
                 return None
             hit(frame)
             be = _backedge_lines(code)
-            if not be:
-                return None
             prev = [frame.f_lineno]
 
             def local_trace(frame, event, arg):
@@ -77,6 +77,10 @@ class Injector:
                         hit(frame)
                     else:
                         prev[0] = ln
+                elif event == 'return' and arg is not None:
+                    # (c) a numqi function returns normally: CPython checks the eval breaker in the caller right after the
+                    # CALL instruction completes, i.e. after all side effects of the callee and before its value is stored
+                    hit(frame)
                 return local_trace
             return local_trace
 
